@@ -106,7 +106,11 @@ impl TypeScorer {
         window_size: u8,
         #[cfg(feature = "tag-prediction")] tag_ngram_model: Vec<TagNgramModel<Vec<u8>>>,
     ) -> Result<Option<Self>> {
-        if ngram_model.0.is_empty() || window_size == 0 {
+        #[cfg(feature = "tag-prediction")]
+        let no_tag_ngrams = tag_ngram_model.iter().all(|m| m.0.is_empty());
+        #[cfg(not(feature = "tag-prediction"))]
+        let no_tag_ngrams = true;
+        if ngram_model.0.is_empty() && no_tag_ngrams || window_size == 0 {
             return Ok(None);
         }
 
